@@ -77,6 +77,12 @@ func runTransport(r *sim.Run) {
 	ru.g = mkGenesis(t)
 	scratch, root0, err := ru.freshNode()
 	if err != nil {
+		if strings.HasPrefix(err.Error(), "PANIC in ") {
+			// the session's first message - a well-formed state - already makes the node panic: "never panic" covers
+			// well-formed input too
+			r.Violate("C14", "crash", "panic-on-well-formed-SetState", "the node panicked on the SetState message of a well-formed generated state (services %v): %v", ru.g.svcIDs, err)
+			return
+		}
 		panic(err)
 	}
 	gh := headerHash(ru.g.header)
